@@ -11,6 +11,7 @@ import (
 	"github.com/Eyevinn/mp4ff/hevc"
 	"pgregory.net/rapid"
 
+	"verif/internal/esgen"
 	"verif/internal/harness"
 	"verif/internal/nalgen"
 )
@@ -36,438 +37,6 @@ func (c *hevcSliceCase) resolve() (*nalgen.HEVCSPSTree, *nalgen.HEVCPPSTree) {
 		}
 	}
 	return nil, nil
-}
-
-var hevcSliceNalTypes = []byte{0, 1, 2, 3, 4, 5, 6, 7, 8, 9, 16, 17, 18, 19, 20, 21}
-
-func hevcSmallOr(t *rapid.T, small, hi int64, l string) int64 {
-	if small > hi {
-		small = hi
-	}
-	if hevcPct(t, 80, l+"?") {
-		return rapid.Int64Range(0, small).Draw(t, l)
-	}
-	return hevcInt(t, 0, hi, l)
-}
-
-// hevcCurrPicEntries: which entries of RefPicListX are the current picture (pps_curr_pic_ref_enabled_flag = 1),
-// 8.3.4: RefPicListTempX is the cyclic repetition of the NumPicTotalCurr candidates with the current picture
-// last; without list modification RefPicListX[i] = RefPicListTempX[i] and, for list 0, when
-// NumRpsCurrTempList0 > num_ref_idx_l0_active_minus1 + 1 the last active entry is replaced by the current picture.
-func hevcCurrPicEntries(nptc, numActive int, modFlag bool, entries []uint8, isL0 bool) []bool {
-	out := make([]bool, numActive)
-	for i := range out {
-		if modFlag {
-			out[i] = int(entries[i]) == nptc-1
-		} else {
-			out[i] = i%nptc == nptc-1
-		}
-	}
-	if isL0 && !modFlag && hevcMax(numActive, nptc) > numActive {
-		out[numActive-1] = true
-	}
-	return out
-}
-
-func hevcGenWeights(t *rapid.T, n int, curr []bool, chroma bool, budget *int, halfY, halfC int64, l string) []hevc.WeightingFactors {
-	ws := make([]hevc.WeightingFactors, n)
-	for i := range ws {
-		if i < len(curr) && curr[i] {
-			continue // flags not present, inferred 0
-		}
-		if *budget >= 1 && rapid.Bool().Draw(t, l+"lf") {
-			ws[i].LumaWeightFlag = true
-			*budget--
-		}
-	}
-	if chroma {
-		for i := range ws {
-			if i < len(curr) && curr[i] {
-				continue
-			}
-			if *budget >= 2 && rapid.Bool().Draw(t, l+"cf") {
-				ws[i].ChromaWeightFlag = true
-				*budget -= 2
-			}
-		}
-	}
-	for i := range ws {
-		if ws[i].LumaWeightFlag {
-			ws[i].DeltaLumaWeight = int8(hevcInt(t, -128, 127, l+"lw"))
-			ws[i].LumaOffset = int(hevcInt(t, -halfY, halfY-1, l+"lo"))
-		}
-		if ws[i].ChromaWeightFlag {
-			for j := 0; j < 2; j++ {
-				ws[i].DeltaChromaWeight[j] = int8(hevcInt(t, -128, 127, l+"cw"))
-				ws[i].DeltaChromaOffset[j] = int(hevcInt(t, -4*halfC, 4*halfC-1, l+"co"))
-			}
-		}
-	}
-	return ws
-}
-
-// hevcGenSlice draws a slice segment value tree for the active parameter sets.
-func hevcGenSlice(t *rapid.T, spsT *nalgen.HEVCSPSTree, ppsT *nalgen.HEVCPPSTree) nalgen.HEVCSliceTree {
-	sps, pps := &spsT.SPS, &ppsT.PPS
-	var tr nalgen.HEVCSliceTree
-	sh, x := &tr.SH, &tr.Extra
-	if hevcPct(t, 72, "ntvcl") {
-		tr.NalType = hevcSliceNalTypes[hevcUni(t, 10, "nt")] // TRAIL_N .. RASL_R
-	} else {
-		tr.NalType = hevcSliceNalTypes[10+hevcUni(t, 6, "nt")] // BLA_W_LP .. CRA_NUT
-	}
-	if hevcPct(t, 4, "ntrsv") {
-		tr.NalType = byte(rapid.IntRange(22, 23).Draw(t, "ntr")) // RSV_IRAP_VCL22..23: the parser treats them as IRAP
-	}
-	nt := int(tr.NalType)
-	irap := nt >= 16 && nt <= 23
-	idr := nt == 19 || nt == 20
-	tr.TemporalIDPlus1 = 1
-	if !irap {
-		tr.TemporalIDPlus1 = byte(rapid.IntRange(1, int(sps.MaxSubLayersMinus1)+1).Draw(t, "tid"))
-	}
-	sh.PicParameterSetId = pps.PicParameterSetID
-	wc, hc := nalgen.HEVCPicSizeInCtbs(sps)
-	picSize := wc * hc
-	sh.FirstSliceSegmentInPicFlag = picSize < 2 || hevcPct(t, 55, "first")
-	if irap {
-		sh.NoOutputOfPriorPicsFlag = rapid.Bool().Draw(t, "noout")
-	}
-	if !sh.FirstSliceSegmentInPicFlag {
-		if pps.DependentSliceSegmentsEnabledFlag {
-			sh.DependentSliceSegmentFlag = rapid.Bool().Draw(t, "dep")
-		}
-		sh.SegmentAddress = uint(hevcInt(t, 1, int64(picSize-1), "addr"))
-	}
-	currPicRef := pps.SccExtension != nil && pps.SccExtension.CurrPicRefEnabledFlag
-	chromaArrayType := nalgen.HEVCChromaArrayType(sps)
-	sliceDeblockingDisabled := pps.DeblockingFilterDisabledFlag
-	if !sh.DependentSliceSegmentFlag {
-		sh.CollocatedFromL0Flag = true // inferred 1 when not present
-		if pps.NumExtraSliceHeaderBits > 0 {
-			b := hevcBits(t, int(pps.NumExtraSliceHeaderBits), "rsv")
-			for i := 0; i < int(pps.NumExtraSliceHeaderBits); i++ {
-				x.SliceReservedFlag = append(x.SliceReservedFlag, b>>uint(i)&1 != 0)
-			}
-		}
-		var cur nalgen.HEVCRPSVars
-		activeInter := false
-		usedLt := 0
-		if !idr {
-			pocBits := int(sps.Log2MaxPicOrderCntLsbMinus4) + 4
-			sh.PicOrderCntLsb = uint16(hevcBits(t, pocBits, "poc"))
-			num := int(sps.NumShortTermRefPicSets)
-			var vars []nalgen.HEVCRPSVars
-			if num > 0 {
-				vars = nalgen.HEVCDeriveAllRPS(spsT.StRPS)
-			}
-			maxDpb := int(sps.SubLayeringOrderingInfos[len(sps.SubLayeringOrderingInfos)-1].MaxDecPicBufferingMinus1)
-			spsFlag := num > 0 && hevcPct(t, 55, "spsrps")
-			if spsFlag && num == 1 && hevcAvoid("hevc-slice-strps-idx-inferred") {
-				harness.Rec.Exclude("hevc-slice-strps-idx-inferred")
-				spsFlag = false
-			}
-			sh.ShortTermRefPicSetSpsFlag = spsFlag
-			if spsFlag {
-				idx := 0
-				if num > 1 {
-					idx = int(hevcInt(t, 0, int64(num-1), "rpsidx"))
-				}
-				sh.ShortTermRefPicSetIdx = byte(idx)
-				cur = vars[idx]
-				activeInter = spsT.StRPS[idx].InterRPSPred
-			} else {
-				c, v := hevcGenRPS(t, num, num, vars, maxDpb, "hr")
-				if !c.InterRPSPred && v.NumUsed() == 0 && v.NumDeltaPocs() < maxDpb && hevcPct(t, 60, "wantref") {
-					// make P/B slices possible more often: one more (used) negative picture
-					c.DeltaPocS0Minus1 = append(c.DeltaPocS0Minus1, hevcDrawDeltaMinus1(t, "hrd0"))
-					c.UsedByCurrPicS0 = append(c.UsedByCurrPicS0, true)
-					v = nalgen.HEVCDeriveRPS(&c, nil)
-				}
-				x.StRPS = &c
-				cur = v
-				activeInter = c.InterRPSPred
-			}
-			if sps.LongTermRefPicsPresentFlag {
-				budget := hevcMax(0, maxDpb-cur.NumDeltaPocs())
-				nsps := 0
-				if sps.NumLongTermRefPics > 0 {
-					nsps = int(hevcSmallOr(t, 3, int64(hevcMin(budget, int(sps.NumLongTermRefPics))), "nltsps"))
-				}
-				if nsps > 0 && sps.NumLongTermRefPics == 1 && hevcAvoid("hevc-slice-lt-idx-inferred") {
-					harness.Rec.Exclude("hevc-slice-lt-idx-inferred")
-					nsps = 0
-				}
-				npics := int(hevcSmallOr(t, 3, int64(budget-nsps), "nltpics"))
-				sh.NumLongTermSps, sh.NumLongTermPics = uint8(nsps), uint(npics)
-				for i := 0; i < nsps+npics; i++ {
-					var lt hevc.LongTermRPS
-					if i < nsps {
-						idx := 0
-						if sps.NumLongTermRefPics > 1 {
-							idx = int(hevcInt(t, 0, int64(sps.NumLongTermRefPics)-1, "ltidx"))
-						}
-						x.LtIdxSps = append(x.LtIdxSps, uint32(idx))
-						lt.PocLsbLt = sps.LongTermRefPicSets[idx].PocLsbLt                       // PocLsbLt[ i ] = lt_ref_pic_poc_lsb_sps[ lt_idx_sps[ i ] ]
-						lt.UsedByCurrPicLtFlag = sps.LongTermRefPicSets[idx].UsedByCurrPicLtFlag // UsedByCurrPicLt[ i ]
-					} else {
-						lt.PocLsbLt = uint16(hevcBits(t, pocBits, "ltpoc"))
-						lt.UsedByCurrPicLtFlag = rapid.Bool().Draw(t, "ltused")
-					}
-					if lt.UsedByCurrPicLtFlag {
-						usedLt++
-					}
-					lt.DeltaPocMsbPresentFlag = rapid.Bool().Draw(t, "ltmsb")
-					if lt.DeltaPocMsbPresentFlag {
-						lt.DeltaPocMsbCycleLt = uint(hevcInt(t, 0, int64(1)<<uint(31-pocBits)-1, "ltcyc"))
-					}
-					sh.LongTermRefPicSets = append(sh.LongTermRefPicSets, lt)
-				}
-			}
-			if sps.SpsTemporalMvpEnabledFlag {
-				sh.TemporalMvpEnabledFlag = rapid.Bool().Draw(t, "tmvp")
-			}
-		}
-		nptc := 0 // NumPicTotalCurr (7-55)
-		if !idr {
-			nptc = cur.NumUsed() + usedLt
-		}
-		if currPicRef {
-			nptc++
-		}
-		st := 2
-		if hevcPct(t, 78, "pb") {
-			st = hevcUni(t, 2, "type")
-		}
-		if irap && !currPicRef {
-			if st != 2 {
-				harness.Rec.Class("hevc-gen-slice-type-forced-I-irap")
-			}
-			st = 2 // IRAP picture without current-picture referencing: slice_type shall be 2
-		}
-		if nptc == 0 {
-			if st != 2 {
-				harness.Rec.Class("hevc-gen-slice-type-forced-I-no-reference")
-			}
-			st = 2
-		}
-		if st != 2 && activeInter && pps.ListsModificationPresentFlag && nptc > 1 && cur.NumUsed() > 0 && hevcAvoid("hevc-strps-interpred-not-derived") {
-			harness.Rec.Exclude("hevc-strps-interpred-not-derived")
-			st = 2
-		}
-		pwtApplies := func(st int) bool {
-			return (pps.WeightedPredFlag && st == 1) || (pps.WeightedBipredFlag && st == 0)
-		}
-		if currPicRef && pwtApplies(st) && hevcAvoid("hevc-slice-pwt-currpic-entry") {
-			harness.Rec.Exclude("hevc-slice-pwt-currpic-entry")
-			st = 2
-		}
-		sh.SliceType = hevc.SliceType(st)
-		if pps.OutputFlagPresentFlag {
-			sh.PicOutputFlag = rapid.Bool().Draw(t, "picout")
-		}
-		if sps.SeparateColourPlaneFlag {
-			sh.ColourPlaneId = uint8(rapid.IntRange(0, 2).Draw(t, "cplane"))
-		}
-		if sps.SampleAdaptiveOffsetEnabledFlag {
-			sh.SaoLumaFlag = rapid.Bool().Draw(t, "saol")
-			if chromaArrayType != 0 {
-				sh.SaoChromaFlag = rapid.Bool().Draw(t, "saoc")
-			}
-		}
-		isP, isB := st == 1, st == 0
-		if isP || isB {
-			sh.NumRefIdxActiveOverrideFlag = rapid.Bool().Draw(t, "ovr")
-			l0, l1 := int(pps.NumRefIdxL0DefaultActiveMinus1), int(pps.NumRefIdxL1DefaultActiveMinus1)
-			if sh.NumRefIdxActiveOverrideFlag {
-				l0 = int(hevcSmallOr(t, 3, 14, "l0"))
-				if isB {
-					l1 = int(hevcSmallOr(t, 3, 14, "l1"))
-				}
-			}
-			sh.NumRefIdxL0ActiveMinus1 = uint8(l0)
-			if isB {
-				sh.NumRefIdxL1ActiveMinus1 = uint8(l1)
-			}
-			if pps.ListsModificationPresentFlag && nptc > 1 {
-				m := &hevc.RefPicListsModification{}
-				m.RefPicListModificationFlagL0 = rapid.Bool().Draw(t, "lm0")
-				if m.RefPicListModificationFlagL0 {
-					for i := 0; i <= l0; i++ {
-						m.ListEntryL0 = append(m.ListEntryL0, uint8(rapid.IntRange(0, nptc-1).Draw(t, "le0")))
-					}
-				}
-				if isB {
-					m.RefPicListModificationFlagL1 = rapid.Bool().Draw(t, "lm1")
-					if m.RefPicListModificationFlagL1 {
-						for i := 0; i <= l1; i++ {
-							m.ListEntryL1 = append(m.ListEntryL1, uint8(rapid.IntRange(0, nptc-1).Draw(t, "le1")))
-						}
-					}
-				}
-				sh.RefPicListsModification = m
-			}
-			if isB {
-				sh.MvdL1ZeroFlag = rapid.Bool().Draw(t, "mvdl1")
-			}
-			if pps.CabacInitPresentFlag {
-				sh.CabacInitFlag = rapid.Bool().Draw(t, "cabac")
-			}
-			if sh.TemporalMvpEnabledFlag {
-				if isB {
-					sh.CollocatedFromL0Flag = rapid.Bool().Draw(t, "coll0")
-				}
-				n := l1
-				if sh.CollocatedFromL0Flag {
-					n = l0
-				}
-				if n > 0 {
-					sh.CollocatedRefIdx = uint8(rapid.IntRange(0, n).Draw(t, "collidx"))
-				}
-			}
-			if pwtApplies(st) {
-				p := &hevc.PredWeightTable{}
-				p.LumaLog2WeightDenom = uint8(rapid.IntRange(0, 7).Draw(t, "wld"))
-				if chromaArrayType != 0 {
-					p.DeltaChromaLog2WeightDenom = int8(rapid.IntRange(-int(p.LumaLog2WeightDenom), 7-int(p.LumaLog2WeightDenom)).Draw(t, "wcd"))
-				}
-				if currPicRef { // only reachable with the avoid switch off
-					var e0, e1 []uint8
-					m0, m1 := false, false
-					if m := sh.RefPicListsModification; m != nil {
-						m0, m1, e0, e1 = m.RefPicListModificationFlagL0, m.RefPicListModificationFlagL1, m.ListEntryL0, m.ListEntryL1
-					}
-					x.PwtCurrPicL0 = hevcCurrPicEntries(nptc, l0+1, m0, e0, true)
-					if isB {
-						x.PwtCurrPicL1 = hevcCurrPicEntries(nptc, l1+1, m1, e1, false)
-					}
-				}
-				high := sps.RangeExtension != nil && sps.RangeExtension.HighPrecisionOffsetsEnabledFlag
-				halfY, halfC := int64(128), int64(128)
-				if high {
-					halfY = 1 << uint(int(sps.BitDepthLumaMinus8)+7)
-					halfC = 1 << uint(int(sps.BitDepthChromaMinus8)+7)
-				}
-				budget := 24 // sum of luma_weight_lX_flag + 2 * chroma_weight_lX_flag <= 24
-				p.WeightsL0 = hevcGenWeights(t, l0+1, x.PwtCurrPicL0, chromaArrayType != 0, &budget, halfY, halfC, "w0")
-				if isB {
-					p.WeightsL1 = hevcGenWeights(t, l1+1, x.PwtCurrPicL1, chromaArrayType != 0, &budget, halfY, halfC, "w1")
-				}
-				sh.PredWeightTable = p
-			}
-			sh.FiveMinusMaxNumMergeCand = uint8(rapid.IntRange(0, 4).Draw(t, "merge"))
-			if sps.SccExtension != nil && sps.SccExtension.MotionVectorResolutionControlIdc == 2 {
-				sh.UseIntegerMvFlag = rapid.Bool().Draw(t, "intmv")
-			}
-		}
-		// SliceQpY = 26 + init_qp_minus26 + slice_qp_delta in -QpBdOffsetY..51
-		qpBd := 6 * int64(sps.BitDepthLumaMinus8)
-		sh.QpDelta = int(hevcInt(t, -qpBd-26-int64(pps.InitQpMinus26), 51-26-int64(pps.InitQpMinus26), "qpd"))
-		off := func(ppsOff int64, l string) int64 { // slice offset in -12..12 and pps + slice in -12..12
-			lo, hi := int64(-12), int64(12)
-			if -12-ppsOff > lo {
-				lo = -12 - ppsOff
-			}
-			if 12-ppsOff < hi {
-				hi = 12 - ppsOff
-			}
-			return hevcInt(t, lo, hi, l)
-		}
-		if pps.SliceChromaQpOffsetsPresentFlag {
-			sh.CbQpOffset = int8(off(int64(pps.CbQpOffset), "cbq"))
-			sh.CrQpOffset = int8(off(int64(pps.CrQpOffset), "crq"))
-		}
-		if e := pps.SccExtension; e != nil && e.SliceActQpOffsetsPresentFlag {
-			sh.ActYQpOffset = int8(off(int64(e.ActYQpOffsetPlus5-5), "acty"))
-			sh.ActCbQpOffset = int8(off(int64(e.ActCbQpOffsetPlus5-5), "actcb"))
-			sh.ActCrQpOffset = int8(off(int64(e.ActCrQpOffsetPlus3-3), "actcr"))
-		}
-		if e := pps.RangeExtension; e != nil && e.ChromaQpOffsetListEnabledFlag {
-			sh.CuChromaQpOffsetEnabledFlag = rapid.Bool().Draw(t, "cuq")
-		}
-		if pps.DeblockingFilterOverrideEnabledFlag {
-			sh.DeblockingFilterOverrideFlag = rapid.Bool().Draw(t, "dbo")
-		}
-		if sh.DeblockingFilterOverrideFlag {
-			sh.DeblockingFilterDisabledFlag = rapid.Bool().Draw(t, "dbd")
-			sliceDeblockingDisabled = sh.DeblockingFilterDisabledFlag
-			if !sh.DeblockingFilterDisabledFlag {
-				sh.BetaOffsetDiv2 = int8(hevcInt(t, -6, 6, "beta"))
-				sh.TcOffsetDiv2 = int8(hevcInt(t, -6, 6, "tc"))
-			}
-		}
-		if pps.LoopFilterAcrossSlicesEnabledFlag && (sh.SaoLumaFlag || sh.SaoChromaFlag || !sliceDeblockingDisabled) {
-			sh.LoopFilterAcrossSlicesEnabledFlag = rapid.Bool().Draw(t, "slf")
-		}
-	}
-	if pps.TilesEnabledFlag || pps.EntropyCodingSyncEnabledFlag {
-		cols, rows := int64(1), int64(1)
-		if pps.TilesEnabledFlag {
-			cols, rows = int64(pps.NumTileColumnsMinus1)+1, int64(pps.NumTileRowsMinus1)+1
-		}
-		var mx int64
-		switch {
-		case !pps.TilesEnabledFlag:
-			mx = int64(hc) - 1
-		case !pps.EntropyCodingSyncEnabledFlag:
-			mx = cols*rows - 1
-		default:
-			mx = cols*int64(hc) - 1
-		}
-		n := int64(0)
-		if mx > 0 && hevcPct(t, 70, "nep?") {
-			if hevcPct(t, 90, "nepsmall") {
-				n = hevcInt(t, 0, int64(hevcMin(int(mx), 12)), "nep")
-			} else {
-				n = hevcInt(t, 0, int64(hevcMin(int(mx), 440)), "nep")
-			}
-		}
-		sh.NumEntryPointOffsets = uint(n)
-		if n > 0 {
-			sh.OffsetLenMinus1 = uint8(hevcInt(t, 0, 31, "eplen"))
-			bs := hevcBytes(t, 4*int(n), "epv")
-			zeroish := hevcPct(t, 30, "epzero")
-			for i := 0; i < int(n); i++ {
-				v := uint32(bs[4*i])<<24 | uint32(bs[4*i+1])<<16 | uint32(bs[4*i+2])<<8 | uint32(bs[4*i+3])
-				if zeroish {
-					v &= 0x00030001
-				}
-				v &= uint32(uint64(1)<<(uint(sh.OffsetLenMinus1)+1) - 1)
-				sh.EntryPointOffsetMinus1 = append(sh.EntryPointOffsetMinus1, v)
-			}
-		}
-	}
-	if pps.SliceSegmentHeaderExtensionPresentFlag {
-		n := 0
-		switch k := hevcUni(t, 10, "extn?"); {
-		case k < 4:
-			n = 0
-		case k < 9:
-			n = rapid.IntRange(1, 8).Draw(t, "extn")
-		default:
-			n = int(hevcInt(t, 9, 256, "extn"))
-		}
-		sh.SegmentHeaderExtensionLength = uint16(n)
-		if n > 0 {
-			bs := hevcBytes(t, n, "extv")
-			if hevcPct(t, 50, "extzero") {
-				for i := range bs {
-					bs[i] &= 3 // zero-heavy: emulation prevention inside the header
-				}
-			}
-			sh.SegmentHeaderExtensionDataByte = bs
-		}
-	}
-	np := rapid.IntRange(0, 6).Draw(t, "npay")
-	if np > 0 {
-		tr.Payload = hevcBytes(t, np, "pay")
-		if hevcPct(t, 60, "payzero") {
-			for i := range tr.Payload {
-				tr.Payload[i] &= 3
-			}
-		}
-	}
-	return tr
 }
 
 // hevcExpectedSlice builds the struct the parser has to return: coded values; for elements that are not
@@ -635,64 +204,15 @@ func hevcSliceClasses(c *hevcSliceCase, nal []byte, d *nalgen.HEVCSliceDerived) 
 
 // hevcGenSliceCase draws the parameter sets (2..3 SPS, 2..4 PPS, ids crossing) and the slice.
 func hevcGenSliceCase(rt *rapid.T) hevcSliceCase {
-	nSPS := rapid.IntRange(2, 3).Draw(rt, "nsps")
-	spss := hevcGenSPSSet(rt, nSPS, 8192)
-	nPPS := rapid.IntRange(2, 4).Draw(rt, "npps")
-	// pps ids: distinct; the first ones reuse ids of SPSs (of ANOTHER SPS than the one they refer to)
-	ids := hevcDistinct(rt, nPPS, 63, "ppsid")
-	var ppss []nalgen.HEVCPPSTree
-	for i := 0; i < nPPS; i++ {
-		ref := rapid.IntRange(0, nSPS-1).Draw(rt, "ppsref")
-		id := ids[i]
-		if i < nSPS && hevcPct(rt, 60, "idtrap") {
-			cand := int(spss[(ref+1)%nSPS].SPS.SpsID)
-			clash := false
-			for j := range ids {
-				if j != i && ids[j] == cand {
-					clash = true
-				}
-			}
-			if !clash {
-				id = cand
-				ids[i] = cand
-			}
-		}
-		pps := hevcGenPPS(rt, &spss[ref], id, fmt.Sprintf("p%d", i))
-		p := &pps.PPS
-		if p.LoopFilterAcrossSlicesEnabledFlag && p.DeblockingFilterDisabledFlag && !p.DeblockingFilterOverrideEnabledFlag &&
-			!spss[ref].SPS.SampleAdaptiveOffsetEnabledFlag && hevcAvoid("hevc-slice-deblocking-disabled-inferred") {
-			// no slice of this PPS/SPS pair can avoid the defect: change the PPS
-			harness.Rec.Exclude("hevc-slice-deblocking-disabled-inferred")
-			p.LoopFilterAcrossSlicesEnabledFlag = false
-		}
-		ppss = append(ppss, *pps)
-	}
-	act := rapid.IntRange(0, nPPS-1).Draw(rt, "act")
-	c := hevcSliceCase{SPS: spss, PPS: ppss}
-	c.Slice.SH.PicParameterSetId = ppss[act].PPS.PicParameterSetID
-	spsT, ppsT := c.resolve()
-	c.Slice = hevcGenSlice(rt, spsT, ppsT)
-	if hevcAvoid("hevc-slice-deblocking-disabled-inferred") {
-		sh, p := &c.Slice.SH, &ppsT.PPS
-		if !sh.DependentSliceSegmentFlag && p.LoopFilterAcrossSlicesEnabledFlag && p.DeblockingFilterDisabledFlag &&
-			!sh.DeblockingFilterOverrideFlag && !sh.SaoLumaFlag && !sh.SaoChromaFlag {
-			// slice_deblocking_filter_disabled_flag inferred 1 from the PPS, no SAO: steer the slice away
-			harness.Rec.Exclude("hevc-slice-deblocking-disabled-inferred")
-			if spsT.SPS.SampleAdaptiveOffsetEnabledFlag {
-				sh.SaoLumaFlag = true
-				sh.LoopFilterAcrossSlicesEnabledFlag = rapid.Bool().Draw(rt, "slf2")
-			} else { // override is enabled in this PPS (see above)
-				sh.DeblockingFilterOverrideFlag = true
-				sh.DeblockingFilterDisabledFlag = true
-			}
-		}
-	}
+	var c hevcSliceCase
+	c.SPS, c.PPS, c.Slice, _, _ = esgen.HEVCGenSliceSet(rt)
+	spss := c.SPS
 	var ptrs []*nalgen.HEVCSPSTree
 	for i := range spss {
 		ptrs = append(ptrs, &c.SPS[i])
 	}
 	c.RelaxInterRPS = hevcRelaxFor(ptrs...)
-	if !c.RelaxInterRPS && c.Slice.Extra.StRPS != nil && c.Slice.Extra.StRPS.InterRPSPred && hevcAvoid("hevc-strps-interpred-not-derived") {
+	if !c.RelaxInterRPS && c.Slice.Extra.StRPS != nil && c.Slice.Extra.StRPS.InterRPSPred && esgen.HEVCAvoid("hevc-strps-interpred-not-derived") {
 		harness.Rec.Exclude("hevc-strps-interpred-not-derived")
 		c.RelaxInterRPS = true
 	}
@@ -706,7 +226,7 @@ func TestHEVCSlice(t *testing.T) {
 		nal, d := nalgen.HEVCWriteSlice(&c.Slice, spsT, &ppsT.PPS)
 		classes := hevcSliceClasses(&c, nal, &d)
 		raw, _ := json.Marshal(c)
-		harness.Rec.Case(hevcNontrivial(classes, "hevc-slice-nal-", "hevc-slice-type-2"), raw, classes...)
+		harness.Rec.Case(esgen.HEVCNontrivial(classes, "hevc-slice-nal-", "hevc-slice-type-2"), raw, classes...)
 		if harness.Rec.WantSample() {
 			c.Hex = fmt.Sprintf("%x", nal)
 			harness.Rec.Sample(map[string]interface{}{"kind": "hevcslice", "case": c})
